@@ -181,6 +181,11 @@ func FetchType(typ reflect.Type, typMap map[string]reflect.Type) {
 		return
 	}
 
+	// a type already in the map has been (or is being) walked: stop here, self-referential types would never end
+	if known, ok := typMap[typ.Name()]; ok && known == typ {
+		return
+	}
+
 	typMap[typ.Name()] = typ
 	for i := 0; i < typ.NumField(); i++ {
 		FetchType(typ.Field(i).Type, typMap)
